@@ -117,3 +117,18 @@ Example a_rejected_stream :
        RName 9 [99]]
   = Invalid 3 IdOutOfRange [ETriple (TIri [97]) (TIri [97]) (TBnode [98])].
 Proof. vm_compute. reflexivity. Qed.
+
+(* ---- from bytes: a well-formed (ids < 2^32, so nothing is lost to uint32 truncation) invalid
+   stream of one frame, serialised delimited, is rejected by the whole parser model -- framing
+   detection, frame reader, protobuf parser, decoder -- having yielded exactly the events before
+   the violation. ---- *)
+From PJ.Model Require Import Wire.
+From PJ.Proofs Require Import WireRT BytesE2E BytesRejects.
+Theorem C16_invalid_bytes_rejected :
+  forall (f : frame) (i : nat) (c : vclass) (evs : list event) (grouped : bool),
+    f_rows f <> [] -> run (f_rows f) = Invalid i c evs -> catalogued c = true ->
+    wf_frame f -> small f ->
+    let r := parse_stream Generic grouped false (write_delimited [f]) in
+    flat_events r = evs /\ exists e, pr_end r = PRaise e.
+Proof. exact invalid_bytes_rejected_delimited. Qed.
+Print Assumptions C16_invalid_bytes_rejected.
